@@ -89,6 +89,16 @@ def run(ctx):
     from . import c11
     c11.builder(ctx, ctx.program("FULL"))
     ctx.floor("BUILDER", 5)
+    # the by-value array map: consumer protocol (BYVAL) and ownership of the element while the closure body runs (ELEM-OWNED),
+    # on C11's witnesses
+    p11, d11 = witness_program(ctx, "w11", c11.SRC)
+    if p11 is None:
+        ctx.violation("BYVAL", "witness", "the array witness crate does not compile:\n%s" % d11[-2000:])
+    else:
+        c11.byval(ctx, p11)
+        c11.elem_owned(ctx, p11)
+    ctx.floor("BYVAL", 3)
+    ctx.floor("ELEM-OWNED", 8)
     ctx.floor("LINEAR", 20)
     ctx.floor("CONSUMER", 12)
 
